@@ -7,15 +7,15 @@ set_option linter.unusedVariables false
 namespace Aiortc.Sctp
 open Aiortc.Gen Aiortc.Sctp.Wire
 
-/-- `_addBufferedAmount(amount)`, exactly: the amount is added, and `bufferedamountlow` is emitted iff the
-amount goes from above the threshold to at most the threshold (and somebody can listen) -/
-theorem wp_addBuffered (i : Nat) (amount : Int) (s : St) (c : Chan) (hc : s.1.chans[i]? = some c) {Q}
-    (h : Q (.ok ())
+/-- `_addBufferedAmount(amount)` up to the application's handler, exactly: the amount is added, and `bufferedamountlow`
+is emitted (result `true`) iff the amount goes from above the threshold to at most the threshold (and somebody can listen) -/
+theorem wp_addBufferedCore (i : Nat) (amount : Int) (s : St) (c : Chan) (hc : s.1.chans[i]? = some c) {Q}
+    (h : Q (.ok (decide ((c.buffered > c.threshold ∧ c.buffered + amount ≤ c.threshold) ∧ c.silent = false ∧ c.ready ≠ 3)))
       ({ s.1 with chans := s.1.chans.set i { c with buffered := c.buffered + amount } },
         s.2 ++ (if (c.buffered > c.threshold ∧ c.buffered + amount ≤ c.threshold) ∧ c.silent = false ∧ c.ready ≠ 3
                 then [Out.evLow i] else []))) :
-    WP (addBuffered i amount) Q s := by
-  unfold addBuffered
+    WP (addBufferedCore i amount) Q s := by
+  unfold addBufferedCore
   wp_simp
   rw [hc]
   simp only
@@ -63,6 +63,68 @@ theorem bufInv_queue {e : Ep} (h : BufInv e) {e' : Ep} (hch : e'.chans = e.chans
     rw [hch] at hx
     rw [hq j]; exact h.2 j x hx h3
 
+theorem userData_ppid (isStr : Bool) (data : Bytes) : (userData isStr data).1 ≠ WEBRTC_DCEP := by
+  unfold userData; split <;> split <;> simp [WEBRTC_DCEP, WEBRTC_STRING, WEBRTC_BINARY, WEBRTC_STRING_EMPTY, WEBRTC_BINARY_EMPTY]
+
+/-- `_data_channel_send`: the bytes are added to `bufferedAmount` and queued -/
+theorem buf_dcSend (i : Nat) (isStr : Bool) (data : Bytes) : Pres bufSpec (dcSend i isStr data) := by
+  apply Pres.intro; intro s hI
+  unfold dcSend addBuffered0
+  cases hc : s.1.chans[i]? with
+  | none =>
+    unfold addBufferedCore
+    wp_head
+    rw [hc]
+    exact fun h => (h trivial).elim
+  | some c =>
+    have hlt : i < s.1.chans.length := (List.getElem?_eq_some_iff.1 hc).1
+    simp only [WPh_assoc]
+    apply WP.bind_of (P := fun r s' => (∃ b, r = .ok b) ∧ s' = _) (wp_addBufferedCore i _ s c hc ⟨⟨_, rfl⟩, rfl⟩)
+    intro r s1 ⟨⟨b, hr'⟩, hs1⟩
+    subst hr' hs1
+    simp only
+    wp_head
+    intro _
+    have hp := userData_ppid isStr data
+    refine ⟨bufInv_set hI hc rfl ?_ ?_ ?_, trivial⟩
+    · intro x hx
+      simp only [List.mem_append, List.mem_singleton] at hx
+      rcases hx with h | h
+      · exact hI.1 x h
+      · rw [h]; exact hlt
+    · intro j hj
+      simp only [qsum_append, qsum, hj.symm, false_and, if_false]
+      omega
+    · intro h3
+      refine ⟨h3, ?_⟩
+      simp only [qsum_append, qsum, true_and, ne_eq, hp, not_false_eq_true, if_true]
+      omega
+macro_rules | `(tactic| pres_leaf) => `(tactic| exact buf_dcSend _ _ _)
+
+/-- an application handler that re-enters `send()` is accounted like a `send()` -/
+theorem buf_react (k i : Nat) : Pres bufSpec (react k i) := by
+  apply Pres.intro; intro s hI
+  unfold react
+  wp_head
+  split
+  · wp_head; exact fun _ => ⟨hI, trivial⟩
+  · rename_i r hr
+    wp_head
+    have h1 : BufInv { s.1 with reactions := s.1.reactions.erase r } := bufInv_queue hI rfl hI.1 (fun _ => rfl)
+    cases hc : s.1.chans[i]? with
+    | none => simp only; exact fun h => (h trivial).elim
+    | some c =>
+      simp only
+      split
+      · wp_head; intro _; exact ⟨h1, trivial⟩
+      · exact WP.pres_after (S := bufSpec) (buf_dcSend _ _ _) h1 trivial
+macro_rules | `(tactic| pres_leaf) => `(tactic| exact buf_react _ _)
+
+/-- continue with an accounted action after an explicit state that satisfies the invariant -/
+theorem WP.after_buf {α : Type} {x : M α} (hx : Pres bufSpec x) {s1 : St} (h : BufInv s1.1) :
+    WP x (fun r s' => IsOk r → BufInv s'.1) s1 :=
+  WP.call hx h (fun r s' h2 hk => (h2 (fun _ => hk)).1)
+
 /-- `RTCDataChannel.send` + `_data_channel_send` -/
 theorem buf_send (i : Nat) (isStr : Bool) (data : Bytes) : Pres bufSpec (handle (.send i isStr data)) := by
   apply Pres.intro; intro s hI
@@ -74,28 +136,7 @@ theorem buf_send (i : Nat) (isStr : Bool) (data : Bytes) : Pres bufSpec (handle 
     simp only
     split
     · wp_head; intro _; exact ⟨bufInv_queue hI rfl hI.1 (fun _ => rfl), trivial⟩
-    · rename_i hr
-      have hr1 : c.ready = 1 := by simpa using hr
-      have hlt : i < s.1.chans.length := (List.getElem?_eq_some_iff.1 hc).1
-      apply WP.bind_of (P := fun r s' => r = .ok () ∧ s' = _) (wp_addBuffered i _ s c hc ⟨rfl, rfl⟩)
-      intro r s1 ⟨hr', hs1⟩
-      subst hr' hs1
-      simp only
-      wp_head
-      intro _
-      refine ⟨bufInv_set hI hc rfl ?_ ?_ ?_, trivial⟩
-      · intro x hx
-        simp only [List.mem_append, List.mem_singleton] at hx
-        rcases hx with h | h
-        · exact hI.1 x h
-        · rw [h]; exact hlt
-      · intro j hj
-        simp only [qsum_append, qsum, hj.symm, false_and, if_false]
-        omega
-      · intro _
-        refine ⟨by omega, ?_⟩
-        simp only [qsum_append, qsum, true_and]
-        split <;> split <;> simp_all [WEBRTC_DCEP, WEBRTC_STRING, WEBRTC_BINARY, WEBRTC_STRING_EMPTY, WEBRTC_BINARY_EMPTY] <;> omega
+    · exact (buf_dcSend i isStr data).out s hI
 
 /-- the invariant while an entry has been popped but its bytes not yet subtracted: the channel objects
 still account for the queue `old` -/
@@ -144,7 +185,7 @@ def BufInvX (i : Nat) (e : Ep) : Prop :=
   (∀ (j : Nat) c, j ≠ i → e.chans[j]? = some c → c.ready ≠ 3 → c.buffered = qsum e.dcQueue j)
 
 theorem wp_setReady3_X {s : St} {i : Nat} (hX : BufInvX i s.1) :
-    WP (setReady i 3) (fun _ s' => BufInv s'.1) s := by
+    WP (setReady i 3) (fun r s' => IsOk r → BufInv s'.1) s := by
   unfold setReady
   wp_simp
   have hkeep : ∀ c, s.1.chans[i]? = some c → c.ready = 3 → BufInv s.1 := by
@@ -157,11 +198,7 @@ theorem wp_setReady3_X {s : St} {i : Nat} (hX : BufInvX i s.1) :
   cases hc : s.1.chans[i]? with
   | none =>
     simp only
-    refine ⟨hX.1, ?_⟩
-    intro j x hx hx3
-    by_cases hj : j = i
-    · subst hj; rw [hc] at hx; cases hx
-    · exact hX.2 j x hj hx hx3
+    exact fun h => h.elim
   | some c =>
     simp only
     have hlt : i < s.1.chans.length := (List.getElem?_eq_some_iff.1 hc).1
@@ -179,14 +216,14 @@ theorem wp_setReady3_X {s : St} {i : Nat} (hX : BufInvX i s.1) :
     · wp_simp
       split
       · split
-        · wp_simp; exact key
+        · wp_simp; exact WP.after_buf (buf_react 0 i) key
         · split
-          · wp_simp; exact key
-          · wp_simp; exact key
-      · wp_simp; exact key
+          · wp_simp; exact WP.after_buf (buf_react 1 i) key
+          · wp_simp; exact fun _ => key
+      · wp_simp; exact fun _ => key
     · rename_i h3
       wp_simp
-      exact hkeep c hc (by simpa using h3)
+      exact fun _ => hkeep c hc (by simpa using h3)
 
 set_option hygiene false in
 /-- the rest of a `flushLoop` iteration once the stream id is known (uses the local facts `tailD`, `tailU`,
@@ -238,11 +275,14 @@ theorem buf_flushLoop (fuel : Nat) : Pres bufSpec (flushLoop fuel) := by
               (fun r s' => (bufSpec.okOnly → IsOk r) → bufSpec.I s'.1 ∧ bufSpec.R s s') s2 := by
           intro s2 hp2 hq2 hlt2 hp
           obtain ⟨ci, hci⟩ : ∃ ci, s2.1.chans[i]? = some ci := ⟨_, List.getElem?_eq_getElem hlt2⟩
-          apply WP.bind_of (P := fun r s' => r = .ok () ∧ s' = _) (wp_addBuffered i _ s2 ci hci ⟨rfl, rfl⟩)
-          intro r s3 ⟨hr', hs3⟩
+          unfold addBuffered
+          simp only [WPh_assoc]
+          apply WP.bind_of (P := fun r s' => (∃ b, r = .ok b) ∧ s' = _) (wp_addBufferedCore i _ s2 ci hci ⟨⟨_, rfl⟩, rfl⟩)
+          intro r s3 ⟨⟨b, hr'⟩, hs3⟩
           subst hr' hs3
           simp only
-          exact WP.call ih (bufPre_user hp2 hp hq2 hci rfl hq2) (fun r s' h hk => ⟨(h hk).1, trivial⟩)
+          refine WP.pres_after (S := bufSpec) ?_ (bufPre_user hp2 hp hq2 hci rfl hq2) trivial
+          pres
         split
         · -- the channel has an id
           wp_head
@@ -269,7 +309,7 @@ theorem buf_flushLoop (fuel : Nat) : Pres bufSpec (flushLoop fuel) := by
               | ok u =>
                 simp only
                 wp_head
-                exact WP.call ih hI2 (fun r s' h hk => ⟨(h hk).1, trivial⟩)
+                exact WP.call ih (hI2 trivial) (fun r s' h hk => ⟨(h hk).1, trivial⟩)
             wp_head
             have hpA : BufPre ((i, ppid, data) :: rest)
                 { s.1 with dcQueue := rest
